@@ -555,6 +555,7 @@ class C13(core.Check):
         "against the geometry given at the start), variants (positions typed by hand: lists / tuples, whole numbers as "
         "ints), micro (the lattice with 0.05..0.2 mm cells), rejected (link candidates whose follower is no grid point "
         "are refused, the error is caught, then optimize), "
+        "grow (two or three optimize() calls on one optimizer, another clamp - sometimes leading a translation link - added before each later call; judged per call), "
         "nearideal (millimetre-sized sketches with only the clamped vertices 1e-5..9e-5 of a cell off: negative summed quality), "
         "boundary (0 iterations, no clamps, auto_optimize; 0 iterations with the report on), defaults (optimize() without "
         "arguments), driver (no optimiser run: a real IterationDriver fed with begin / end_iteration calls - limits -1..20, "
@@ -587,8 +588,8 @@ class C13(core.Check):
         "initial state is T_C13_noworse_general. Round 6: the driver / reporter model (IterationDriver, ClampOptimizationData, "
         "summary block) is over Q, the implementation computes in floats (compared to 1e-9 relative, the printed summary to 4 "
         "digits); T_C13_tie_statements is a textual snapshot of the control methods (trip-wire), the other T_C13_tie_* are "
-        "semantic; add_clamp / add_link between two optimize() calls and exceptions other than ValueError inside the "
-        "minimiser have no theorem."
+        "semantic; additions between two optimize() calls are covered by T_C13_frame_phases / T_C13_noworse_phases with 'every phase is "
+        "entered in a rest state' as hypothesis; exceptions other than ValueError inside the minimiser are not modelled."
     )
 
     # ------------------------------------------------------------------ generators
@@ -1136,7 +1137,7 @@ class C13(core.Check):
             cases += self._gen_boundary(rng, tier)
         # round 6 (drawn last: the cases above are the ones earlier rounds saw for the same seed)
         cases += [self._gen_nearideal(rng) for _ in range(6 if tier == "quick" else 60)]
-        cases += [self._gen_grow(rng) for _ in range(4 if tier == "quick" else 40)]
+        cases += [self._gen_grow(rng) for _ in range(3 if tier == "quick" else 40)]
         cases += [self._gen_defaults(rng, tier) for _ in range(1 if tier == "quick" else 10)]
         c = self._gen_valid(rng, tier, "boundary")
         c.update({"max_iterations": 0, "report": True})
